@@ -66,11 +66,16 @@ def ffmt(s, **kw):
     return s
 
 
+_FVARIANT = {}
+
+
 def frow(p, tt):
     k = p["kind"]
     if k == "T_v":
         k = {"int": "int_v", "double": "double_v"}[tt]
-    return K.FROWS[k], cgen.row(p, tt)
+    # fortran_generic: the caller's variable may have another kind than the C++ parameter
+    k2 = _FVARIANT.get(p["name"], k)
+    return K.FROWS[k2], cgen.row(p, tt)
 
 
 def fres(c, tt):
@@ -93,6 +98,9 @@ def gen_f_driver(cases, nvals, with_class):
     body = []
     calls = []
     for c in cases:
+      for fv_ in (c.get("fgeneric") or [{}]):
+        _FVARIANT.clear()
+        _FVARIANT.update(fv_)
         for tt, nsup in cgen.variants(c):
             ptypes = [cgen.cxx_ptype(p, tt) for p in c["params"]]
             sid = cgen.sigid(c, ptypes)
@@ -153,6 +161,7 @@ def gen_f_driver(cases, nvals, with_class):
                 blk.append("  end block")
                 body += blk
                 calls.append((c, tt, nsup, name))
+    _FVARIANT.clear()
     if with_class:
         body.append(CLS_FDRIVER)
     L += body
